@@ -3,6 +3,8 @@ package c06
 import (
 	"context"
 	"fmt"
+	"github.com/thushan/olla/internal/adapter/proxy/olla"
+	"github.com/thushan/olla/verifharness/fw"
 	"math/rand"
 	"net/url"
 	"sort"
@@ -569,9 +571,98 @@ func TestC06(t *testing.T) {
 		run.Count("lc_concurrent_selects", int64(selects))
 	}
 
+	leastConnThroughStack(run)
+	run.Require("through_stack_probe_rounds", 8)
 	run.Require("lists_enumerated", 1000)
 	run.Require("rr_histories_linearizable", int64(rrConc*9/10))
 	run.Require("lc_concurrent_selects", 1000)
 	run.Require("tier_lists", 20)
 	run.Finish(t)
+}
+
+// leastConnThroughStack: least-connections through the running proxy. A request is parked
+// inside one backend; the next request must go to the other one, which has nothing in flight.
+// On the olla engine this is asked after a history in which an endpoint with an open engine
+// circuit was selected and skipped under concurrent load (a skip must leave no trace in the
+// in-flight numbers the selector works with).
+func leastConnThroughStack(run *rep.Run) {
+	slow := func(us int) fw.Fault { return fw.Fault{Kind: "ok", Records: 700, GapUS: us} }
+	for ei, eng := range []string{"olla", "sherpa"} {
+		f, err := fw.New(fw.Opt{Engine: eng, Balancer: "least-connections", N: 2, Priorities: []int{100, 100}, ReadTimeout: 5 * time.Second})
+		if err != nil {
+			run.Inconclusive("world failed to start: " + err.Error())
+			return
+		}
+		hc := world.NewClient(false, 10*time.Second)
+		if svc, ok := f.W.ProxyService().(*olla.Service); ok {
+			f.B[1].SetHealth(500, "")
+			f.W.ForceHealth()
+			hits := 0
+			for i := 0; i < 8 && hits < 5; i++ {
+				c := f.Run(hc, fmt.Sprintf("ls%dt%d", ei, i), []fw.Fault{{Kind: "eof_before_headers"}, {Kind: "ok"}}, "", nil, nil)
+				hits += len(c.Attempts)
+			}
+			f.Readmit()
+			f.Set([]fw.Fault{{Kind: "ok"}, {Kind: "ok"}})
+			for burst := 0; burst < 2; burst++ {
+				var wg sync.WaitGroup
+				for k := 0; k < 8; k++ {
+					n := fmt.Sprintf("ls%db%dk%d", ei, burst, k)
+					f.SetFor(n, []fw.Fault{slow(12000), slow(12000)})
+					wg.Add(1)
+					go func() { defer wg.Done(); f.Send(world.NewClient(false, 10*time.Second), n, "") }()
+				}
+				wg.Wait()
+			}
+			f.Collect()
+			// the endpoint works again: let the breaker's timeout pass and close it with successes
+			svc.GetCircuitBreaker("b0").VerifShift(31 * time.Second)
+			for i := 0; i < 3; i++ {
+				f.Run(hc, fmt.Sprintf("ls%dc%d", ei, i), []fw.Fault{{Kind: "ok"}, {Kind: "ok"}}, "", nil, nil)
+			}
+		}
+		for r := 0; r < 5; r++ {
+			// quiescence: nothing in flight anywhere
+			for p := 0; p < 300; p++ {
+				zero := true
+				for _, g := range f.W.Stats().GetConnectionStats() {
+					if g != 0 {
+						zero = false
+					}
+				}
+				if zero {
+					break
+				}
+				time.Sleep(10 * time.Millisecond)
+			}
+			f.Set([]fw.Fault{{Kind: "ok"}, {Kind: "ok"}})
+			park, probe := fmt.Sprintf("ls%dp%dpark", ei, r), fmt.Sprintf("ls%dp%dprobe", ei, r)
+			f.SetFor(park, []fw.Fault{slow(150000), slow(150000)}) // ~1.2 s inside the backend
+			f.SetFor(probe, []fw.Fault{{Kind: "ok"}, {Kind: "ok"}})
+			done := make(chan struct{})
+			go func() { defer close(done); f.Send(world.NewClient(false, 10*time.Second), park, "") }()
+			parked := false
+			for p := 0; p < 300 && !parked; p++ {
+				parked = f.B[0].InFlight.Load() > 0 || f.B[1].InFlight.Load() > 0
+				if !parked {
+					time.Sleep(2 * time.Millisecond)
+				}
+			}
+			time.Sleep(20 * time.Millisecond)
+			f.Send(hc, probe, "")
+			<-done
+			at := f.Collect()
+			run.Count("through_stack_probe_rounds", 1)
+			run.Eval(fmt.Sprintf("lc-through-stack/%s/%d", eng, r))
+			if !parked || len(at[park]) != 1 || len(at[probe]) != 1 {
+				run.Inconclusive("park / probe requests did not each land exactly once")
+				continue
+			}
+			if at[park][0].Backend == at[probe][0].Backend {
+				run.Violation("C06/least-connections/through-stack/not-minimal/"+eng, fmt.Sprintf("a request was in flight on b%d and nothing on the other endpoint, yet the next request was also sent to b%d; the collector reported %v", at[park][0].Backend, at[probe][0].Backend, f.W.Stats().GetConnectionStats()),
+					map[string]any{"engine": eng, "round": r})
+			}
+		}
+		f.Close()
+	}
 }
